@@ -43,6 +43,19 @@ PROPS = {
         "oracles": ["confirm"],
         "assumptions": ["Ed25519 verification is a parameter: the verdict for each (key, signature) pair is the one the real verify returned"],
     },
+    "C15": {
+        "modules": ["C15"],
+        "streams": [{"name": "seal", "quick": 60, "thorough": 900}],
+        "projection": "settlement",
+        "oracles": ["settlement"],
+        "assumptions": ["PoolState arithmetic and PoolKey parsing live in the dependency melstructs: modelled (exact Nat arithmetic for BigRational floor), compared on every seal"],
+    },
+    "C16": {
+        "modules": ["C16"],
+        "streams": [{"name": "seal", "quick": 60, "thorough": 900}],
+        "projection": "pools",
+        "oracles": ["pools"],
+    },
     "C17": {
         "modules": ["C17"],
         "streams": [{"name": "feemult", "quick": 300, "thorough": 3000}, {"name": "seal", "quick": 25, "thorough": 300}],
@@ -70,12 +83,41 @@ PROPS = {
         "oracles": ["fees"],
         "assumptions": ["the serialised length of a transaction is an input of the model (supplied by the implementation)"],
     },
+    "C06": {
+        "modules": ["C06"],
+        "streams": [{"name": "chain", "quick": 40, "thorough": 500}],
+        "projection": "blocks",
+        "oracles": [],
+        "assumptions": ["a block's header equality is decided on the real headers; the model computes the scalar header fields itself and is given the Merkle roots of the states involved"],
+    },
+    "C07": {
+        "modules": ["C07", "C07Chain"],
+        "streams": [{"name": "chain", "quick": 40, "thorough": 500}],
+        "projection": "chain",
+        "oracles": [],
+        "assumptions": ["blake3 collision-freeness enters as the explicit hypotheses `Injective` / `RootsInjective` of the soundness and sensitivity theorems",
+                        "novasmt's hexary node compression and node store are exercised, not modelled"],
+    },
+    "C08": {
+        "modules": ["C08"],
+        "streams": [{"name": "chain", "quick": 40, "thorough": 500}],
+        "projection": "restore",
+        "oracles": [],
+        "assumptions": ["the content-addressed store is not modelled: fromBlock is given the tree contents the header's roots denote"],
+    },
     "C13": {
         "modules": ["C13"],
         "streams": [{"name": "apply", "quick": 60, "thorough": 900}, {"name": "chain", "quick": 25, "thorough": 300}],
         "projection": "stakes",
         "oracles": ["stakes"],
         "assumptions": ["the decoded StakeDoc of a transaction's data is an input of the model (decoded by the real stdcode)"],
+    },
+    "C18": {
+        "modules": ["C18"],
+        "streams": [{"name": "apply", "quick": 80, "thorough": 1200}],
+        "projection": "speed",
+        "oracles": [],
+        "assumptions": ["MelPoW verification is a parameter: the verdict for the puzzle (header at the coin's height, coin id) is computed by the harness from the specification with the real melpow and shipped to the model"],
     },
     "C19": {
         "modules": ["C19"],
